@@ -27,7 +27,7 @@ MUTABLE_CTORS = {'Py_Vec', 'Vec', 'Py_Angle', 'Angle', 'Py_Matrix', 'Matrix'}
 FROZEN_CTORS = {'Py_FrozenVec', 'FrozenVec', 'Py_FrozenAngle', 'FrozenAngle', 'Py_FrozenMatrix', 'FrozenMatrix'}
 FRESH_CLASSMETHODS = {'from_angle', 'from_basis', 'from_pitch', 'from_yaw', 'from_roll', 'axis_angle', 'from_angstr',
                       '_from_raw', 'from_str', 'with_axes'}
-FRESH_METHODS = {'to_angle', 'thaw', 'freeze', 'transpose', 'inverse', 'norm', 'cross', 'forward', 'left', 'up', '_new_copy'}
+FRESH_METHODS = {'to_angle', 'thaw', 'freeze', 'transpose', 'inverse', 'norm', 'cross', 'forward', 'left', 'up', '_new_copy', '_rotate_angle'}
 # methods that write their receiver / their first argument (the call is then a mutation event in the caller)
 MUT_RECV = {'_mat_mul', '__iadd__', '__isub__', '__imul__', '__itruediv__', '__ifloordiv__', '__imod__', '__imatmul__',
             'min', 'max', 'localise', 'rotate', 'rotate_by_str', '__setitem__'}
@@ -38,7 +38,33 @@ def _is360(n: ast.AST) -> bool:
     return isinstance(n, ast.Constant) and type(n.value) in (int, float) and n.value == 360
 
 
-def classify_rhs(v: ast.AST) -> str:
+def _single_bindings(fn: ast.AST | None) -> dict[str, ast.AST]:
+    """Local names of a function that are bound exactly once, by a plain `name = expr` (not a parameter, no
+    augmented assignment, not a loop/with/tuple target): their value can be substituted at a use."""
+    if fn is None:
+        return {}
+    count: dict[str, int] = {}
+    val: dict[str, ast.AST] = {}
+    params = {a.arg for a in fn.args.posonlyargs + fn.args.args + fn.args.kwonlyargs}
+    for node in ast.walk(fn):
+        if isinstance(node, (ast.Global, ast.Nonlocal)):
+            for n in node.names:
+                count[n] = count.get(n, 0) + 2
+        for t in _targets(node):
+            if isinstance(t, ast.Name):
+                count[t.id] = count.get(t.id, 0) + 1
+                if isinstance(node, ast.Assign) and len(node.targets) == 1 and node.targets[0] is t:
+                    val[t.id] = node.value
+                elif isinstance(node, ast.AnnAssign) and node.target is t and node.value is not None:
+                    val[t.id] = node.value
+                else:
+                    count[t.id] += 1
+    return {n: v for n, v in val.items() if count.get(n) == 1 and n not in params}
+
+
+def classify_rhs(v: ast.AST, env: dict[str, ast.AST] | None = None, depth: int = 0) -> str:
+    if isinstance(v, ast.Name) and env and v.id in env and depth < 4:
+        return classify_rhs(env[v.id], env, depth + 1)      # `p = e % 360 % 360; ang._pitch = p`
     if isinstance(v, ast.BinOp) and isinstance(v.op, ast.Mod) and _is360(v.right):
         inner = v.left
         if isinstance(inner, ast.BinOp) and isinstance(inner.op, ast.Mod) and _is360(inner.right):
@@ -52,17 +78,18 @@ def classify_rhs(v: ast.AST) -> str:
 
 
 def _walk_funcs(tree: ast.AST):
-    """Yield (class_name or None, func_name or None, node) for every node (innermost function wins for stores)."""
-    def walk(node, cls, fn):
+    """Yield (class_name or None, outermost function name or None, innermost function node or None, node)."""
+    def walk(node, cls, fn, inner):
         for ch in ast.iter_child_nodes(node):
             if isinstance(ch, ast.ClassDef):
-                yield from walk(ch, ch.name, None)
+                yield from walk(ch, ch.name, None, None)
             elif isinstance(ch, (ast.FunctionDef, ast.AsyncFunctionDef)):
-                yield from walk(ch, cls, ch.name if fn is None else fn)
+                yield cls, fn, inner, ch
+                yield from walk(ch, cls, ch.name if fn is None else fn, ch)
             else:
-                yield cls, fn, ch
-                yield from walk(ch, cls, fn)
-    yield from walk(tree, None, None)
+                yield cls, fn, inner, ch
+                yield from walk(ch, cls, fn, inner)
+    yield from walk(tree, None, None, None)
 
 
 def _targets(node: ast.AST):
@@ -107,12 +134,15 @@ def angle_sites() -> tuple[list[tuple[str, str, int]], dict]:
         tree = ast.parse(text)
         if rel != 'math.py':
             info['other_files_with_angle_slots'].append(rel)
-        for cls, fn, node in _walk_funcs(tree):
+        envs: dict[int, dict[str, ast.AST]] = {}
+        for cls, fn, fnode, node in _walk_funcs(tree):
+            if id(fnode) not in envs:
+                envs[id(fnode)] = _single_bindings(fnode)
             for t in _targets(node):
                 if isinstance(t, ast.Attribute) and t.attr in FIELDS:
                     where = f'{rel}:{cls}.{fn}:{t.attr}'
                     if isinstance(node, ast.Assign) and len(node.targets) == 1 and node.targets[0] is t:
-                        sites.append((where, classify_rhs(node.value), node.lineno))
+                        sites.append((where, classify_rhs(node.value, envs[id(fnode)]), node.lineno))
                     elif isinstance(node, ast.AnnAssign) and node.value is None:
                         continue        # a bare annotation `_pitch: float` in a class body stores nothing
                     else:
@@ -149,8 +179,193 @@ def angle_sites() -> tuple[list[tuple[str, str, int]], dict]:
     return sites, info
 
 
+# ---------------------------------------------------------------------------------------------- angle creations
+ANGLE_CTORS = {'Angle', 'Py_Angle', 'FrozenAngle', 'Py_FrozenAngle'}
+ANGLE_CLASSES = ('AngleBase', 'Angle', 'FrozenAngle')
+SLOT_OF_PROP = {'pitch': '_pitch', 'yaw': '_yaw', 'roll': '_roll'}
+
+
+def _stored_slot(t: ast.AST, name: str, setters: set[str]) -> str | None:
+    """`name._pitch = ...` or (through a property setter of Angle that stores the slot) `name.pitch = ...`."""
+    if isinstance(t, ast.Attribute) and isinstance(t.value, ast.Name) and t.value.id == name:
+        if t.attr in FIELDS:
+            return t.attr
+        if t.attr in setters:
+            return SLOT_OF_PROP[t.attr]
+    return None
+
+
+def must_store(stmts: list[ast.stmt], name: str, setters: set[str], have: frozenset[str], exits: list[tuple[ast.AST | None, frozenset[str]]]):
+    """Slots of `name` definitely stored on every path through stmts.  Returns the set at fall-through or None when
+    every path leaves; every `return e` is appended to exits as (e, set).  Stores inside loops / try / with bodies do not
+    count (they may not execute); a `raise` ends its path."""
+    for st in stmts:
+        if isinstance(st, ast.Return):
+            exits.append((st.value, have))
+            return None
+        if isinstance(st, ast.Raise):
+            return None
+        if isinstance(st, ast.If):
+            a = must_store(st.body, name, setters, have, exits)
+            b = must_store(st.orelse, name, setters, have, exits)
+            if a is None and b is None:
+                return None
+            have = b if a is None else a if b is None else (a & b)
+            continue
+        if isinstance(st, (ast.Assign, ast.AnnAssign)):
+            for t in _targets(st):
+                sl = _stored_slot(t, name, setters)
+                if sl:
+                    have = have | {sl}
+                if isinstance(t, ast.Name) and t.id == name and have:
+                    have = frozenset()           # the name is rebound: earlier stores went to another object
+            continue
+        if isinstance(st, (ast.For, ast.While, ast.Try, ast.With, ast.AsyncFor, ast.AsyncWith, ast.Match)):
+            sub: list = []
+            for f in ('body', 'orelse', 'finalbody'):
+                must_store(getattr(st, f, []) or [], name, setters, have, sub)
+            for h in getattr(st, 'handlers', []):
+                must_store(h.body, name, setters, have, sub)
+            for c in getattr(st, 'cases', []):
+                must_store(c.body, name, setters, have, sub)
+            exits.extend(sub)
+            continue
+    return have
+
+
+def _all_functions(tree: ast.Module):
+    """(class name or None, function node) for every function of math.py, nested ones included."""
+    def walk(node, cls):
+        for ch in ast.iter_child_nodes(node):
+            if isinstance(ch, ast.ClassDef):
+                yield from walk(ch, ch.name)
+            elif isinstance(ch, (ast.FunctionDef, ast.AsyncFunctionDef)):
+                yield cls, ch
+                yield from walk(ch, cls)
+            else:
+                yield from walk(ch, cls)
+    yield from walk(tree, None)
+
+
+def _own_nodes(fn: ast.AST):
+    """Nodes of a function body, not descending into nested functions/classes."""
+    stack = list(ast.iter_child_nodes(fn))
+    while stack:
+        n = stack.pop()
+        yield n
+        if not isinstance(n, (ast.FunctionDef, ast.AsyncFunctionDef, ast.ClassDef, ast.Lambda)):
+            stack.extend(ast.iter_child_nodes(n))
+
+
+def angle_creations(tree: ast.Module) -> tuple[list[tuple[str, str, int]], dict]:
+    """Every expression of math.py that creates an Angle/FrozenAngle object, classified:
+         ViaCtor     Angle(...)/FrozenAngle(...)/cls(...)/type(self)(...): slots are written by the constructor's store sites
+         RawToAngle  X.__new__(X) handed directly to MatrixBase._to_angle(), which stores all three slots on every path
+         RawStored   X.__new__(X) bound to a local name whose three slots are stored on every path to `return name`
+         CreateOther anything else (an uninitialised or partly initialised angle may escape)
+       plus the facts `_to_angle` / `Angle.__init__` / `FrozenAngle.__new__` store all three slots on every path."""
+    out: list[tuple[str, str, int]] = []
+    info: dict = {}
+    ang = next((c for c in tree.body if isinstance(c, ast.ClassDef) and c.name == 'Angle'), None)
+    if ang is None:
+        raise TranslateError('class Angle not found')
+    # property setters of Angle that store exactly their own slot
+    setters: set[str] = set()
+    for f in ang.body:
+        if isinstance(f, ast.FunctionDef) and any(isinstance(d, ast.Attribute) and d.attr == 'setter' for d in f.decorator_list):
+            stores = [t.attr for n in ast.walk(f) for t in _targets(n) if isinstance(t, ast.Attribute) and t.attr in FIELDS]
+            if f.name in SLOT_OF_PROP and stores == [SLOT_OF_PROP[f.name]]:
+                setters.add(f.name)
+    info['angle_property_setters'] = sorted(setters)
+
+    def is_raw_new(e: ast.AST, cls: str | None) -> bool:
+        """X.__new__(X) for an angle class X, cls.__new__(cls) / object.__new__(cls) inside an angle class"""
+        if not (isinstance(e, ast.Call) and isinstance(e.func, ast.Attribute) and e.func.attr == '__new__' and len(e.args) == 1
+                and isinstance(e.args[0], ast.Name)):
+            return False
+        a = e.args[0].id
+        if a in ANGLE_CTORS:
+            return True
+        return a == 'cls' and cls in ANGLE_CLASSES
+
+    def is_ctor(e: ast.AST, cls: str | None) -> bool:
+        if not isinstance(e, ast.Call):
+            return False
+        f = e.func
+        if isinstance(f, ast.Name):
+            return f.id in ANGLE_CTORS or (f.id == 'cls' and cls in ANGLE_CLASSES)
+        if isinstance(f, ast.Call) and isinstance(f.func, ast.Name) and f.func.id == 'type' and cls in ANGLE_CLASSES:
+            return True
+        return False
+
+    complete: dict[str, bool] = {}
+    for cls, fn in _all_functions(tree):
+        where = f'{cls}.{fn.name}' if cls else fn.name
+        # the initialisers themselves
+        target = None
+        if (cls, fn.name) == ('MatrixBase', '_to_angle'):
+            target = fn.args.args[1].arg if len(fn.args.args) > 1 else None
+        elif (cls, fn.name) == ('Angle', '__init__'):
+            target = fn.args.args[0].arg
+        if target is not None:
+            exits: list = []
+            fall = must_store(fn.body, target, setters, frozenset(), exits)
+            sets = [h for e, h in exits if e is None or (isinstance(e, ast.Name) and e.id == target)]
+            if fall is not None:
+                sets.append(fall)
+            complete[where] = bool(sets) and all(h >= set(FIELDS) for h in sets)
+        raw_used: set[int] = set()
+        parent: dict[int, ast.AST] = {}
+        for n in _own_nodes(fn):
+            for ch in ast.iter_child_nodes(n):
+                parent[id(ch)] = n
+        for n in _own_nodes(fn):
+            if is_ctor(n, cls):
+                out.append((where, 'ViaCtor', n.lineno))
+            elif is_raw_new(n, cls):
+                par = parent.get(id(n))
+                kind = 'CreateOther'
+                if isinstance(par, ast.Call) and isinstance(par.func, ast.Attribute) and par.func.attr == '_to_angle' \
+                        and par.args and par.args[0] is n:
+                    kind = 'RawToAngle'
+                elif isinstance(par, ast.Assign) and len(par.targets) == 1 and isinstance(par.targets[0], ast.Name) and par.value is n:
+                    nm = par.targets[0].id
+                    exits = []
+                    fall = must_store(fn.body, nm, setters, frozenset(), exits)
+                    rets = [h for e, h in exits if isinstance(e, ast.Name) and e.id == nm]
+                    # the object may only leave through `return name`; any other use of the name (argument, store
+                    # elsewhere) besides attribute stores on it is not understood
+                    uses = [u for u in _own_nodes(fn) if isinstance(u, ast.Name) and u.id == nm and isinstance(u.ctx, ast.Load)]
+                    ok_uses = all(isinstance(parent.get(id(u)), (ast.Attribute, ast.Return)) for u in uses)
+                    if rets and all(h >= set(FIELDS) for h in rets) and ok_uses and fall is None:
+                        kind = 'RawStored'
+                out.append((where, kind, n.lineno))
+    for need in ('MatrixBase._to_angle', 'Angle.__init__'):
+        if need not in complete:
+            raise TranslateError(f'{need} not found')
+    info['stores_all_slots_on_every_path'] = complete
+    if not out:
+        raise TranslateError('no expression creating an Angle found in math.py')
+    return out, info
+
+
 # ---------------------------------------------------------------------------------------------- format_float
 def format_cfg(tree: ast.Module) -> dict:
+    """The pipeline shape, or - when format_float is written in a way this translator does not know - a configuration
+    marked `recognised: False` (all flags off), so that the named obligation `format_float_pipeline_recognised` fails
+    while the other generated objects are still checked."""
+    try:
+        cfg = _format_cfg(tree)
+        cfg['recognised'] = True
+        cfg['reason'] = ''
+        return cfg
+    except TranslateError as e:
+        fn = next((n for n in tree.body if isinstance(n, ast.FunctionDef) and n.name == 'format_float'), None)
+        return {'places': 0, 'adds_zero': False, 'strips': False, 'neg_zero_fix': False, 'recognised': False,
+                'reason': str(e), 'digest': ast_digest(fn) if fn is not None else ''}
+
+
+def _format_cfg(tree: ast.Module) -> dict:
     fn = next((n for n in tree.body if isinstance(n, ast.FunctionDef) and n.name == 'format_float'), None)
     if fn is None:
         raise TranslateError('format_float not found')
@@ -246,6 +461,118 @@ def str_templates(tree: ast.Module) -> dict:
     return out
 
 
+# ---------------------------------------------------------------------------------------------- parse_vec_str / from_str
+def _nodoc(body: list[ast.stmt]) -> list[ast.stmt]:
+    return [s for s in body if not (isinstance(s, ast.Expr) and isinstance(s.value, ast.Constant) and isinstance(s.value.value, str))]
+
+
+def _parse_cfg(tree: ast.Module) -> dict:
+    fn = next((n for n in tree.body if isinstance(n, ast.FunctionDef) and n.name == 'parse_vec_str'), None)
+    if fn is None:
+        raise TranslateError('parse_vec_str not found')
+    params = [a.arg for a in fn.args.args]
+    if len(params) != 4 or fn.args.vararg or fn.args.kwarg or fn.args.kwonlyargs:
+        raise TranslateError('parse_vec_str: signature not (val, x, y, z)')
+    v, dx, dy, dz = params
+    defaults = f'return ({dx}, {dy}, {dz})'
+    body = _nodoc(fn.body)
+    cfg = {'strips_ws': False, 'opens': '', 'closes': '', 'splits_ws': False, 'uses_float': False, 'passthrough': False}
+    u = lambda n: ast.unparse(n)
+    i = 0
+    # 1. dispatch on the type of the argument: strings continue, vectors/angles are passed through, others give the defaults
+    if i < len(body) and isinstance(body[i], ast.If) and u(body[i].test) == f'isinstance({v}, str)':
+        st = body[i]
+        chain = []
+        cur: ast.stmt | None = st
+        while isinstance(cur, ast.If):
+            chain.append((u(cur.test), [u(x) for x in cur.body]))
+            if len(cur.orelse) == 1 and isinstance(cur.orelse[0], ast.If):
+                cur = cur.orelse[0]
+            else:
+                chain.append(('else', [u(x) for x in cur.orelse]))
+                cur = None
+        want = [(f'isinstance({v}, str)', ['pass']),
+                (f'isinstance({v}, VecBase)', [f'return ({v}.x, {v}.y, {v}.z)']),
+                (f'isinstance({v}, AngleBase)', [f'return ({v}.pitch, {v}.yaw, {v}.roll)']),
+                ('else', [defaults])]
+        if chain != want:
+            raise TranslateError(f'parse_vec_str: unrecognised type dispatch (line {st.lineno}): {chain}')
+        cfg['passthrough'] = True
+        i += 1
+    # 2. val = val.strip()
+    if i < len(body) and u(body[i]) == f'{v} = {v}.strip()':
+        cfg['strips_ws'] = True
+        i += 1
+    # 3./4. the bracket removals, in this order
+    for which, idx, sl in (('opens', '0', '1:'), ('closes', '-1', ':-1')):
+        if i < len(body) and isinstance(body[i], ast.If):
+            st = body[i]
+            t = st.test
+            ok = (isinstance(t, ast.BoolOp) and isinstance(t.op, ast.And) and len(t.values) == 2 and u(t.values[0]) == v
+                  and isinstance(t.values[1], ast.Compare) and len(t.values[1].ops) == 1 and isinstance(t.values[1].ops[0], ast.In)
+                  and u(t.values[1].left) == f'{v}[{idx}]' and isinstance(t.values[1].comparators[0], ast.Constant)
+                  and isinstance(t.values[1].comparators[0].value, str)
+                  and not st.orelse and len(st.body) == 1 and u(st.body[0]) == f'{v} = {v}[{sl}]')
+            if not ok:
+                raise TranslateError(f'parse_vec_str: unrecognised bracket statement (line {st.lineno})')
+            cfg[which] = t.values[1].comparators[0].value
+            i += 1
+    # 5. try: a, b, c = val.split()  except ValueError: return defaults
+    def is_try(st, body_pred):
+        return (isinstance(st, ast.Try) and len(st.body) == 1 and body_pred(st.body[0]) and not st.orelse and not st.finalbody
+                and len(st.handlers) == 1 and st.handlers[0].type is not None and u(st.handlers[0].type) == 'ValueError'
+                and [u(x) for x in st.handlers[0].body] == [defaults])
+    names: list[str] = []
+    def split_stmt(x):
+        if isinstance(x, ast.Assign) and len(x.targets) == 1 and isinstance(x.targets[0], ast.Tuple) and u(x.value) == f'{v}.split()' \
+                and all(isinstance(e, ast.Name) for e in x.targets[0].elts) and len(x.targets[0].elts) == 3:
+            names.extend(e.id for e in x.targets[0].elts)
+            return True
+        return False
+    if i < len(body) and is_try(body[i], split_stmt):
+        cfg['splits_ws'] = True
+        i += 1
+    else:
+        raise TranslateError('parse_vec_str: `try: a, b, c = val.split()` not found where expected')
+    # 6. try: return (float(a), float(b), float(c))  except ValueError: return defaults
+    def float_stmt(x):
+        return isinstance(x, ast.Return) and u(x.value) == '(' + ', '.join(f'float({n})' for n in names) + ')'
+    if i < len(body) and is_try(body[i], float_stmt):
+        cfg['uses_float'] = True
+        i += 1
+    if i != len(body):
+        raise TranslateError(f'parse_vec_str: unrecognised statement (line {body[i].lineno})')
+    return cfg
+
+
+def parse_cfg(tree: ast.Module) -> dict:
+    """Shape of parse_vec_str, or `recognised: False` (all flags off) when it is written in an unknown way."""
+    try:
+        cfg = _parse_cfg(tree)
+        cfg.update(recognised=True, reason='')
+    except TranslateError as e:
+        cfg = {'strips_ws': False, 'opens': '', 'closes': '', 'splits_ws': False, 'uses_float': False, 'passthrough': False,
+               'recognised': False, 'reason': str(e)}
+    # from_str of the vector and angle base classes: `a, b, c = Py_parse_vec_str(val, a, b, c); return cls(a, b, c)`
+    alias = any(isinstance(n, ast.Assign) and len(n.targets) == 1 and isinstance(n.targets[0], ast.Name)
+                and n.targets[0].id == 'Py_parse_vec_str' and isinstance(n.value, ast.Name) and n.value.id == 'parse_vec_str'
+                for n in tree.body)
+    for cname in ('VecBase', 'AngleBase'):
+        ok = False
+        c = next((c for c in tree.body if isinstance(c, ast.ClassDef) and c.name == cname), None)
+        f = next((f for f in (c.body if c else []) if isinstance(f, ast.FunctionDef) and f.name == 'from_str'), None)
+        if f is not None and _is_classmethod(f):
+            ps = [a.arg for a in f.args.args]
+            body = [ast.unparse(x) for x in _nodoc(f.body)]
+            if len(ps) == 5:
+                k, val, a, b, d = ps
+                callee = 'Py_parse_vec_str' if alias else 'parse_vec_str'
+                ok = body in ([f'{a}, {b}, {d} = {fn}({val}, {a}, {b}, {d})', f'return {k}({a}, {b}, {d})']
+                              for fn in {callee, 'parse_vec_str'})
+        cfg[f'{cname}.from_str'] = ok
+    return cfg
+
+
 # ---------------------------------------------------------------------------------------------- mutation census
 def _class_functions(tree: ast.Module) -> dict[str, list[ast.FunctionDef]]:
     """Methods per class, including those generated with exec(TEMPLATE.format(...)) inside the class body."""
@@ -318,8 +645,8 @@ def _origin_of_expr(e: ast.AST, origin_of_name) -> str:
     return 'Unknown'
 
 
-def mutation_events(f: ast.FunctionDef, is_method: bool) -> list[tuple[str, str, int]]:
-    """(origin, what, line) for every write to an object inside f."""
+def _origins(f: ast.FunctionDef, is_method: bool):
+    """(receiver name or None, parameter names, bindings, origin_of_name) for the body of f."""
     params = [a.arg for a in f.args.posonlyargs + f.args.args + f.args.kwonlyargs]
     if f.args.vararg:
         params.append(f.args.vararg.arg)
@@ -357,6 +684,12 @@ def mutation_events(f: ast.FunctionDef, is_method: bool) -> list[tuple[str, str,
         if n in params:
             return 'Param'
         return 'Unknown'
+    return recv, params, binds, origin_of_name
+
+
+def mutation_events(f: ast.FunctionDef, is_method: bool) -> list[tuple[str, str, int]]:
+    """(origin, what, line) for every write to an object inside f."""
+    recv, params, binds, origin_of_name = _origins(f, is_method)
 
     ev: list[tuple[str, str, int]] = []
     for node in ast.walk(f):
@@ -410,6 +743,132 @@ def method_table(tree: ast.Module) -> list[tuple[str, str]]:
     return [(cls, f.name) for cls, fns in _class_functions(tree).items() for f in fns]
 
 
+# ---------------------------------------------------------------------------------------------- result kinds
+CONCRETE = {'Vec': 'VecBase', 'FrozenVec': 'VecBase', 'Angle': 'AngleBase', 'FrozenAngle': 'AngleBase',
+            'Matrix': 'MatrixBase', 'FrozenMatrix': 'MatrixBase'}
+COPYLIKE = ('copy', '__copy__', '__deepcopy__', '__reduce__', 'freeze', 'thaw')
+
+
+def _is_stub(f: ast.FunctionDef) -> bool:
+    body = _nodoc(f.body)
+    return (len(body) == 1 and isinstance(body[0], ast.Expr) and isinstance(body[0].value, ast.Constant) and body[0].value.value is Ellipsis) \
+        or any(isinstance(d, ast.Name) and d.id == 'overload' for d in f.decorator_list)
+
+
+def _own_returns(f: ast.FunctionDef) -> list[ast.Return]:
+    return [n for n in _own_nodes(f) if isinstance(n, ast.Return)]
+
+
+def _guarded_param_return(f: ast.FunctionDef, ret: ast.Return, cls: str) -> bool:
+    """`if isinstance(p, cls|<Class>): return p` as a direct statement of the function body, p a parameter."""
+    for st in f.body:
+        if isinstance(st, ast.If) and len(st.body) == 1 and st.body[0] is ret and not st.orelse and isinstance(ret.value, ast.Name):
+            t = st.test
+            if isinstance(t, ast.Call) and isinstance(t.func, ast.Name) and t.func.id == 'isinstance' and len(t.args) == 2 \
+                    and isinstance(t.args[0], ast.Name) and t.args[0].id == ret.value.id \
+                    and isinstance(t.args[1], ast.Name) and t.args[1].id in ('cls', cls, 'Py_' + cls):
+                return True
+    return False
+
+
+def _function_kind(f: ast.FunctionDef, cls: str | None, module_kinds: dict[str, str]) -> str:
+    """Kind of the result of one function, from its own return statements."""
+    recv, params, binds, origin_of_name = _origins(f, cls is not None)
+    rets = _own_returns(f)
+    if any(isinstance(n, (ast.Yield, ast.YieldFrom)) for n in _own_nodes(f)):
+        return 'ROther'                 # generator / context manager
+    if f.name == '__init__':
+        # the object is created by type.__call__; __init__ itself returns nothing
+        return 'RFresh' if all(r.value is None for r in rets) else 'RUnknown'
+    kinds: set[str] = set()
+    for r in rets:
+        v = r.value
+        if v is None or (isinstance(v, ast.Constant)) or (isinstance(v, ast.Name) and v.id == 'NotImplemented'):
+            kinds.add('ROther')
+            continue
+        if f.name == '__reduce__':
+            # (maker, (slot, slot, ...)): a new object iff the maker builds one and only slots of the receiver are passed
+            ok = (isinstance(v, ast.Tuple) and len(v.elts) == 2 and isinstance(v.elts[0], ast.Name)
+                  and module_kinds.get(v.elts[0].id) == 'RFresh' and isinstance(v.elts[1], ast.Tuple)
+                  and all(isinstance(e, ast.Attribute) and isinstance(e.value, ast.Name) and e.value.id == recv
+                          and (e.attr.startswith('_') or e.attr in ('x', 'y', 'z', 'pitch', 'yaw', 'roll'))
+                          for e in v.elts[1].elts))
+            kinds.add('RFresh' if ok else 'RUnknown')
+            continue
+        if isinstance(v, (ast.Name, ast.Call)):
+            o = _origin_of_expr(v, origin_of_name)
+            if isinstance(v, ast.Call) and isinstance(v.func, ast.Attribute) and v.func.attr == '_to_angle' and len(v.args) == 1:
+                o = _origin_of_expr(v.args[0], origin_of_name)          # _to_angle returns the angle it was given
+            if isinstance(v, ast.Call) and isinstance(v.func, ast.Attribute) and isinstance(v.func.value, ast.Name) and v.func.value.id == 'math':
+                kinds.add('ROther')
+                continue
+            if o == 'Fresh':
+                kinds.add('RFresh')
+            elif o == 'Self':
+                kinds.add('RSelf')
+            elif o == 'Param':
+                kinds.add('RArgFrozen' if (cls is not None and _guarded_param_return(f, r, cls)) else 'RArg')
+            elif isinstance(v, ast.Call) and isinstance(v.func, ast.Name) and v.func.id in ('float', 'int', 'str', 'bool', 'hash', 'len', 'round', 'iter', 'tuple', 'Vec_tuple', 'abs', 'min', 'max', 'format_float', 'repr'):
+                kinds.add('ROther')
+            else:
+                kinds.add('RUnknown')
+            continue
+        if isinstance(v, (ast.Tuple, ast.JoinedStr, ast.Compare, ast.BoolOp, ast.BinOp, ast.UnaryOp, ast.Attribute, ast.Subscript, ast.IfExp,
+                          ast.GeneratorExp, ast.ListComp, ast.List, ast.Dict)):
+            kinds.add('ROther')          # numbers, strings, tuples, slot reads: not an object of the six classes
+            continue
+        kinds.add('RUnknown')
+    if not rets:
+        return 'ROther'
+    kinds.discard('ROther') if len(kinds) > 1 else None
+    if kinds == {'RFresh', 'RArgFrozen'}:
+        return 'RArgFrozen'
+    if len(kinds) == 1:
+        return kinds.pop()
+    return 'RUnknown'
+
+
+def result_kinds(tree: ast.Module) -> tuple[list[tuple[str, str, str]], dict]:
+    """(concrete class, public method, kind) for every method of the six classes as resolved through inheritance
+    (subclass first, then its base; class-level aliases `__copy__ = copy` followed; a class without __copy__/__deepcopy__
+    is copied by the copy module through __reduce__)."""
+    module_kinds: dict[str, str] = {}
+    for f in tree.body:
+        if isinstance(f, ast.FunctionDef) and f.name.startswith('_mk'):
+            module_kinds[f.name] = _function_kind(f, None, {})
+    fns = _class_functions(tree)
+    aliases: dict[str, dict[str, str]] = {}
+    for c in tree.body:
+        if isinstance(c, ast.ClassDef) and c.name in CLASSES:
+            for n in c.body:
+                if isinstance(n, ast.Assign) and len(n.targets) == 1 and isinstance(n.targets[0], ast.Name) and isinstance(n.value, ast.Name):
+                    aliases.setdefault(c.name, {})[n.targets[0].id] = n.value.id
+    out: list[tuple[str, str, str]] = []
+    info: dict = {'module_makers': module_kinds}
+    for cls, base in CONCRETE.items():
+        table: dict[str, str] = {}
+        for owner in (base, cls):                       # subclass definitions override the base ones
+            defs: dict[str, ast.FunctionDef] = {}
+            for f in fns[owner]:
+                if not _is_stub(f):
+                    defs[f.name] = f                    # last real definition wins (property setter after getter)
+            for name, f in defs.items():
+                table[name] = _function_kind(f, cls, module_kinds)
+            for name, target in aliases.get(owner, {}).items():
+                if target in defs:
+                    table[name] = _function_kind(defs[target], cls, module_kinds)
+                elif target == 'None':
+                    table.pop(name, None)
+        for m in ('__copy__', '__deepcopy__'):
+            if m not in table and '__reduce__' in table:
+                table[m] = table['__reduce__']          # copy.copy / copy.deepcopy fall back to __reduce_ex__
+        for name, k in sorted(table.items()):
+            public = not name.startswith('_') or (name.startswith('__') and name.endswith('__'))
+            if public:
+                out.append((cls, name, k))
+    return out, info
+
+
 # ---------------------------------------------------------------------------------------------- emit
 def _s(x: str) -> str:
     return '"' + x.replace('"', "'") + '"'
@@ -419,10 +878,15 @@ def translate() -> tuple[str, dict]:
     text = src_text('math.py')
     tree = ast.parse(text)
     sites, info = angle_sites()
+    creations, cinfo = angle_creations(tree)
+    info.update(cinfo)
     cfg = format_cfg(tree)
+    pcfg = parse_cfg(tree)
     strs = str_templates(tree)
     muts = mutation_census(tree)
     meths = method_table(tree)
+    results, rinfo = result_kinds(tree)
+    info.update(rinfo)
     # __str__: three numbers separated by single spaces
     def plain3(p, sep):
         kinds = [k for k, _ in p]
@@ -433,24 +897,42 @@ def translate() -> tuple[str, dict]:
     lines = [
         '(* GENERATED by translate/c05_sites.py from src/srctools/math.py. Do not edit. *)',
         'From Coq Require Import ZArith NArith List String.',
-        'From SV Require Import Num.Dec6 Num.AngleSites SM.FrozenOps.',
+        'From SV Require Import Num.Dec6 Num.AngleSites Num.VecText SM.FrozenOps SM.FrozenCopy.',
         'Import ListNotations.', 'Open Scope string_scope.',
         '(* every store to an _pitch/_yaw/_roll slot: (file:Class.function:slot, classification of the stored value) *)',
         'Definition angle_sites : list (string * rhs) := [',
         ';\n'.join(f'  ({_s(w)}, {k})' for w, k, _ in sites),
         '].',
+        '(* every expression that creates an Angle/FrozenAngle object: (function, how its slots get written) *)',
+        'Definition angle_creations : list (string * creation) := [',
+        ';\n'.join(f'  ({_s(w)}, {k})' for w, k, _ in creations),
+        '].',
+        f'Definition to_angle_stores_all_slots : bool := {b(cinfo["stores_all_slots_on_every_path"]["MatrixBase._to_angle"])}.',
+        f'Definition angle_init_stores_all_slots : bool := {b(cinfo["stores_all_slots_on_every_path"]["Angle.__init__"])}.',
         '(* the format_float pipeline *)',
+        f'Definition format_float_recognised : bool := {b(cfg["recognised"])}.',
         f'Definition format_float_cfg : fmt_cfg := {{| adds_zero := {b(cfg["adds_zero"])}; places := {cfg["places"]}%N; '
         f'strips := {b(cfg["strips"])}; neg_zero_fix := {b(cfg["neg_zero_fix"])} |}}.',
         f'Definition str_uses_format_float : bool := {b(str_ok)}.',
+        '(* parse_vec_str and the from_str classmethods *)',
+        f'Definition parse_vec_recognised : bool := {b(pcfg["recognised"])}.',
+        f'Definition parse_vec_cfg : parse_cfg := {{| strips_ws := {b(pcfg["strips_ws"])}; opens := [{"; ".join(str(ord(ch)) for ch in pcfg["opens"])}]%N; '
+        f'closes := [{"; ".join(str(ord(ch)) for ch in pcfg["closes"])}]%N; splits_ws := {b(pcfg["splits_ws"])}; uses_float := {b(pcfg["uses_float"])} |}}.',
+        f'Definition parse_passes_objects_through : bool := {b(pcfg["passthrough"])}.',
+        f'Definition vec_from_str_uses_parse : bool := {b(pcfg["VecBase.from_str"])}.',
+        f'Definition angle_from_str_uses_parse : bool := {b(pcfg["AngleBase.from_str"])}.',
         '(* writes to objects that are not freshly created inside the method: (class, method, written object, what) *)',
         'Definition mut_events : list (string * string * origin * string) := [',
         ';\n'.join(f'  ({_s(c)}, {_s(m)}, {o}, {_s(w)})' for c, m, o, w, _ in muts),
         '].',
+        '(* kind of the result of every public method of the six concrete classes, resolved through inheritance *)',
+        'Definition result_kinds : list (string * string * rkind) := [',
+        ';\n'.join(f'  ({_s(c)}, {_s(m)}, {k})' for c, m, k in results),
+        '].',
         '',
     ]
-    side = {'angle_sites': [list(s) for s in sites], 'format_float': cfg, 'str_templates': strs,
-            'mut_events': [list(m) for m in muts], 'n_methods': len(meths), **info,
+    side = {'angle_sites': [list(s) for s in sites], 'angle_creations': [list(c) for c in creations], 'format_float': cfg, 'parse_vec_str': pcfg, 'str_templates': strs,
+            'mut_events': [list(m) for m in muts], 'result_kinds': [list(r) for r in results], 'n_methods': len(meths), **info,
             'digests': {'parse_vec_str': _digest(tree, 'parse_vec_str'), 'format_float': cfg['digest']}}
     return '\n'.join(lines), side
 
